@@ -286,6 +286,15 @@ class Master:
             split, bankbits, rowbits = self.geom
             self.stream = dict(bank=r.randrange(1 << bankbits), rows=r.sample(range(1 << rowbits), r.choice([1, 2, 3])), k=0)
             self.p_new = 1.0; self.p_we = r.choice([0.0, 1.0, 0.5]); self.len = r.randrange(150, 400)
+        # ping-pong stream: back-to-back commands alternating between a bank whose row changes every time (always a row miss)
+        # and another bank kept on one row (always a hit): the later command could be executed first, so any weakness in the
+        # per-master ordering (bank lock, data strobe routing) shows as swapped read data or write data landing elsewhere
+        self.ping = None
+        if self.geom and self.geom[1] >= 1 and self.stream is None and r.random() < 0.3:
+            split, bankbits, rowbits = self.geom
+            b0 = r.randrange(1 << bankbits); b1 = (b0 + 1 + r.randrange((1 << bankbits) - 1)) % (1 << bankbits)
+            self.ping = dict(miss_bank=b0, rows=r.sample(range(1 << rowbits), 2), hit_bank=b1, hit_row=r.randrange(1 << rowbits), k=0)
+            self.p_new = 1.0; self.p_we = r.choice([0.0, 0.5, 0.3]); self.len = r.randrange(100, 300)
 
     def next(self, cmd_ready, wdata_ready):
         r = self.rnd
@@ -308,6 +317,13 @@ class Master:
                 split, bankbits, rowbits = self.geom
                 st = self.stream; st["k"] += 1
                 addr = r.randrange(1 << split) | (st["bank"] << split) | (st["rows"][st["k"] % len(st["rows"])] << (split + bankbits))
+            elif self.ping is not None:
+                split, bankbits, rowbits = self.geom
+                pg = self.ping; pg["k"] += 1
+                if pg["k"] % 2:
+                    addr = r.randrange(1 << split) | (pg["miss_bank"] << split) | (pg["rows"][(pg["k"] // 2) % 2] << (split + bankbits))
+                else:
+                    addr = r.randrange(min(4, 1 << split)) | (pg["hit_bank"] << split) | (pg["hit_row"] << (split + bankbits))
             elif k < 0.5:
                 addr = r.choice(self.hot)
             elif k < 0.8:
